@@ -33,7 +33,9 @@ def main():
             if not os.path.isfile(f"{d}/patch.diff"):
                 continue
             meta = json.load(open(f"{d}/meta.json"))
-            prop = meta.get("property", name[:3])
+            # `reported_by`: the seed was written for one property but the behaviour it breaks is
+            # stated by another one (see DESIGN.md B6); the regression then runs that check
+            prop = meta.get("reported_by", meta.get("property", name[:3]))
             if sh(f"git apply {d}/patch.diff", REPO).returncode != 0:
                 print(f"{name}: patch does not apply"); missed.append(name); continue
             t0 = time.time()
